@@ -1,5 +1,6 @@
 import OjgVerif.Writer.OjModel
 import OjgVerif.Gen.Pretty
+import OjgVerif.Gen.PrettyFill
 /-! # Model of `pretty.Writer` for JSON (pretty/writer.go, build.go, node.go)
 
 `encode` = `build` (a tree of nodes with the encoded leaf text, `size`, `depth`, `skip`) followed by
@@ -334,8 +335,9 @@ def maxKeyLen : List (Bytes × PNode) → Nat → Nat
 
 /-- the three results of the `if flat {…} else {…}` block: `cs`, `is`, `flat` -/
 def layoutOf (w : PW) (depth : Nat) (flat : Bool) : Bytes × Bytes × Bool :=
-  if flat then ([32], [], true)
-  else if Gen.Pretty.spaces.size < (depth + 1) * w.indent + 1 then ([], [], true)
+  if flat then (Gen.PrettyFill.flatCs.toList, [], true)                 -- `cs = []byte{' '}`
+  else if Gen.Pretty.spaces.size < (depth + 1) * w.indent + 1 then
+    (Gen.PrettyFill.deepFlatCs.toList, [], true)          -- `flat = true; cs = []byte{' '}` (since 6d73487)
   else (sliceOf Gen.Pretty.spaces 0 ((depth + 1) * w.indent + 1),
         sliceOf Gen.Pretty.spaces 0 (depth * w.indent + 1), false)
 
